@@ -15,7 +15,8 @@ PROP = "C06"
 LEVEL = "model_checking"
 RULE = ("E3: BFS over all sequences to depth D of an operation alphabet (Block1 PUT/POST blocks num 0-2 x M x size 16/32 x full/"
         "short / empty / double payload from endpoints 1-2 (same IP, other port: 3) to /a, /b, /a?q=1, /a with Request-Tag, /a with Accept; Block2 GETs num 0-4 x SZX 0-2; plain "
-        "requests; clock jumps 92.9 / 93.2 / 186.1 s) with dedup on (model, spool, cache, recently-accessed sets, timers)")
+        "requests; clock jumps 92.9 / 93.2 / 186.1 s) with dedup on (model, spool, cache, recently-accessed sets, timers); E1: combined transfers (POST in 1-3 Block1 blocks with the Block2 size wish on the last / every block, "
+        "responses of 0-100 bytes fetched to the end)")
 ASSUMPTIONS = [
     "state lifetime bounds 93 s / 186 s = MAX_TRANSMIT_WAIT and twice that, computed from RFC 7252 defaults",
     "don't-care: block 0 with M=1 and a short payload; continuation that is both mis-sized and mis-placed (4.00 or 4.08); "
@@ -346,7 +347,84 @@ def canon(st):
     return core.digest(k)
 
 
+def combined(res, rlen, szx2, where, nblocks1):
+    """RFC 7959 section 3.3: a body uploaded in Block1 blocks whose response needs Block2 - the size wish for the response (Block2
+    NUM 0) rides on the last Block1 request only, or on every one of them.  The response to the last block is the first slice of
+    the handler's response in the wished size; the later slices follow on Block2 requests for the same operation."""
+    from ..seam2 import SiteWorld
+    handled = []
+    R = bytes((i * 5 + 1) & 0xFF for i in range(rlen))
+
+    class Big(resource.Resource):
+        async def render_post(self, request):
+            handled.append(bytes(request.payload))
+            return Message(payload=R)
+    sw = SiteWorld(lambda sw: _site_with(Big()))
+    case = {"family": "combined", "rlen": rlen, "szx2": szx2, "where": where, "blocks1": nblocks1}
+    res.evaluations += 1
+    try:
+        size2 = 1 << (szx2 + 4)
+        body = b""
+        r = None
+        for num in range(nblocks1):
+            last = num == nblocks1 - 1
+            pl = bytes([0x40 + num]) * (16 if not last else 5)
+            body += pl
+            m = Message(code=POST, uri_path=["big"], payload=pl)
+            m.opt.block1 = (num, not last, 0)
+            if where == "every" or last:
+                m.opt.block2 = (0, False, szx2)
+            r = sw.do(m, 1)
+            if not last and r.code.dotted != "2.31":
+                res.violate(Violation("block1-step", "2.31", r.code.dotted, "blockwise.py:Block1Spool.feed_and_take", case, key="combined-2.31"))
+                return
+        got = [bytes(r.payload)]
+        b2 = r.opt.block2
+        more_want = rlen > size2
+        first_ok = r.code.dotted == "2.04" and handled == [body] and bytes(r.payload) == R[:size2] and \
+            ((b2 is None and not more_want) or (b2 is not None and (b2.block_number, bool(b2.more), b2.size_exponent) == (0, more_want, szx2)))
+        if not first_ok:
+            res.violate(Violation("block2-first", {"code": "2.04", "slice": [0, min(size2, rlen)], "block2": [0, more_want, szx2]},
+                                  {"code": r.code.dotted, "len": len(r.payload), "block2": None if b2 is None else [b2.block_number, bool(b2.more), b2.size_exponent],
+                                   "handler_calls": len(handled)}, "message.py:_append_request_block", case, key="combined-first"))
+            return
+        num = 1
+        while more_want and num * size2 < rlen:
+            m = Message(code=POST, uri_path=["big"])
+            m.opt.block2 = (num, False, szx2)
+            r = sw.do(m, 1)
+            want = R[num * size2:(num + 1) * size2]
+            b2 = r.opt.block2
+            if r.code.dotted != "2.04" or bytes(r.payload) != want or b2 is None or (b2.block_number, bool(b2.more)) != (num, (num + 1) * size2 < rlen) or len(handled) != 1:
+                res.violate(Violation("block2-later", {"code": "2.04", "slice": [num * size2, num * size2 + len(want)]},
+                                      {"code": r.code.dotted, "len": len(r.payload), "handler_calls": len(handled)}, "blockwise.py:Block2Cache.extract_or_insert",
+                                      case, key="combined-later"))
+                return
+            num += 1
+        res.traces += 1
+        res.transitions += nblocks1 + num
+        res.signatures.add(core.digest(("combined", rlen, szx2, where, nblocks1)))
+        res.outcomes.add(core.digest(("combined", more_want)))
+    finally:
+        sw.dispose()
+
+
+def _site_with(r):
+    site = resource.Site()
+    site.add_resource(["big"], r)
+    return site
+
+
 def job(arg):
+    if arg[0] == "combined":
+        res = Result()
+        for rlen in (0, 1, 16, 17, 40, 100):
+            for szx2 in (0, 1, 2):
+                for where in ("last", "every"):
+                    for nb in (1, 2, 3):
+                        combined(res, rlen, szx2, where, nb)
+        res.sample({"combined": "POST in 1-3 Block1 blocks, Block2 wish on the last / every block, response of 0..100 bytes"})
+        return res
     family, first, rlen, depth = arg
     res = Result()
     build = make_build(rlen)
@@ -412,10 +490,15 @@ def run(tier, seed, jobs):
     drained2 = (("b2", 1, 0, 0), ("t", 2 * MTW + 0.1), ("b2", 1, 0, 0), ("t", 2 * MTW + 0.1))
     work.append(("b1", drained1, 20, 2))
     work.append(("b2", drained2, 64, 2))
+    work.append(("combined", None, 0, 0))
     return core.prun(job, work, jobs)
 
 
 def replay(case, scenario, seed):
+    if case.get("family") == "combined":
+        res = Result()
+        combined(res, case["rlen"], case["szx2"], case["where"], case["blocks1"])
+        return [v for v, n in res.violations.values()]
     st = make_build(case["rlen"])([tuple(e) for e in case["hist"]])
     vs = list(st.violations)
     for op in case["hist"]:
